@@ -15,6 +15,8 @@ if ! git -C $WT apply "$PATCH"; then echo "PATCH DOES NOT APPLY"; git -C /repo w
 mkdir -p $MH
 rsync -a --delete --exclude target --exclude target-loom /verif/harness/ $MH/
 find $MH -name Cargo.toml -exec sed -i "s#/repo/#$WT/#g" {} +
+# the scratch copy's release-profile settings that change behaviour (see tools/repo_profile_env.py)
+eval "$(python3 /verif/tools/repo_profile_env.py $WT)"
 rc=0
 for ID in "$@"; do
   case $ID in
